@@ -1,7 +1,8 @@
 /-
 Props/C17b.lean — C17, second part: the inputs that are not attribute values of the value grammar, and the form of the methods.
-  * every property setter (regenerated statement trees, Gen/Setters.lean) has the form validate-then-assign, except the four collection
-    setters (witnesses);
+  * a rejected assignment changes nothing, for EVERY property setter (regenerated statement trees, Gen/Setters.lean): each is
+    validate-then-assign or (the four collection setters since repo fix 9176cc9) assign-under-restore, the restoring handler being analysed
+    statement by statement (witnesses: a handler that forgets one restore is flagged);
   * constructor path = setter path (regenerated table of every `__init__`);
   * `pixel_agg` over the regenerated table of numpy names (Gen/NpNames.lean), `field_func`, the TriangularMesh mode arguments, `in_out`,
     `sumup` / `squeeze`, the `style` argument: accepted ⇔ documented where that is true of the code, `_partial` statements with witnesses where it
@@ -13,9 +14,9 @@ import MagpyVerif.Model.CallArgs
 namespace MagpyVerif.C17
 open MagpyVerif.Valid MagpyVerif.Gen
 
-/-! ## every property setter has the form validate-then-assign (regenerated statement trees, Gen/Setters.lean) -/
+/-! ## a rejected assignment changes nothing: every property setter is validate-then-assign or assign-under-restore
+(regenerated statement trees, Gen/Setters.lean) -/
 
-open MagpyVerif.Valid.SetterForm in
 /-- the four setters of `BaseCollection` that replace a group of children -/
 def collectionSetters : List (String × String) :=
   [("BaseCollection", "children"), ("BaseCollection", "sources"), ("BaseCollection", "sensors"), ("BaseCollection", "collections")]
@@ -31,57 +32,165 @@ theorem setter_names :
        ("Dipole", "moment"), ("Triangle", "vertices")] := by
   decide
 
-/- FULL: every setter of the regenerated list has the form validate-then-assign.
-   False of the code: the four `BaseCollection` setters unlink the old children and clear the lists BEFORE `format_obj_input` / `self.add`
-   can reject the new value (`collection_setters_change_state_before_rejecting`; reproducer: `c = Collection(a, b); c.children = [a, 1]`
-   raises MagpylibBadUserInput and leaves `c.children == []`, `a.parent is None`). -/
-/-- C17 (every setter, regenerated): each property setter of the object classes other than the four collection setters is of the form
-validate-then-assign — every call in its body is known to the analysis (a validator, a state-changing method, or a conversion of validated data),
-and on no path through the body (loops taken 0, 1 and 2 times) does a change of object state precede a point where the assigned value can be
-rejected.  A new or changed setter is covered by the quantifier. -/
-theorem setters_validate_then_assign_partial :
-    ∀ s ∈ Setters.setters, SetterForm.name s ∉ collectionSetters → SetterForm.form s = true := by
+/-- C17 (every setter, regenerated, full strength since repo fix 9176cc9): for EVERY property setter of the object classes every call in its
+body (private helpers of the same class inlined) is known to the analysis, and on every path through the body (loops taken 0, 1 and 2 times),
+at every point where the assigned value can be rejected, either no object state has been changed yet, or the point lies in a
+`try … except Exception: …; raise` whose handler undoes every change made so far — a rebound attribute is assigned the reference that was saved
+before it was rebound, an attribute set on every element of an iterable is set again in a loop over the same iterable, a recomputed view is
+recomputed after the attribute writes — and re-raises.  A new or changed setter is covered by the quantifier. -/
+theorem setters_reject_without_change : ∀ s ∈ Setters.setters, SetterForm.form s = true := by
   decide
 
-/-- the exclusion is necessary and exact: the setters that are not of the form are the four collection setters … -/
-theorem collection_setters_change_state_before_rejecting :
-    (Setters.setters.filter fun s => !SetterForm.form s).map SetterForm.name = collectionSetters := by
+/-- … more precisely: each setter is validate-then-assign, except the four collection setters, which are assign-under-restore -/
+theorem setters_validate_then_assign_or_restore :
+    (∀ s ∈ Setters.setters, SetterForm.name s ∉ collectionSetters → SetterForm.vtaForm s = true) ∧
+    (Setters.setters.filter fun s => !SetterForm.vtaForm s).map SetterForm.name = collectionSetters := by
   decide
 
-/-- … and this is the offending path of `children`: old children unlinked, the list cleared, the typed views rebuilt — then `self.add` may reject -/
-theorem children_setter_offending_path :
-    ([SetterForm.Ev.mutate "child._parent", .mutate "self._children", .mutate "self._update_src_and_sens", .mayRaise "self.add", .mutate "self.add"], false)
-      ∈ (Setters.setters.filter (fun s => SetterForm.name s == ("BaseCollection", "children"))).flatMap SetterForm.badPaths := by
+/-- the handler of `BaseCollection._replace_children`, as the analysis reads it from the source: `self._children = old_children`, the loop
+`for child in removed: child._parent = self`, `self._update_src_and_sens()` -/
+def replaceChildrenHandler : List SetterForm.HW :=
+  [.restore "self._children" "old_children", .assignElem "child._parent [child in removed]", .call "self._update_src_and_sens"]
+
+/-- (this became true with repo fix 9176cc9; before it the four setters unlinked the old children and cleared the lists with no handler around
+`self.add`, and `c.children = [a, 1]` left the collection empty — the former theorems `collection_setters_change_state_before_rejecting` and
+`children_setter_offending_path`.)  For each of the four collection setters, on every path: the validation of the typed setters
+(`format_obj_input`) is a point of rejection with nothing written; the only other point of rejection is `self.add` inside the `try`; the writes
+made before it — `child._parent` of every removed child, `self._children`, the typed views — are each undone by the handler; and `self._children`
+is restored from a reference taken before it was rebound. -/
+theorem collection_setters_restore_every_write :
+    ∀ s ∈ Setters.setters, SetterForm.name s ∈ collectionSetters →
+      ∀ p ∈ SetterForm.pathsL s.body,
+        SetterForm.rwc p.1 = true ∧
+        p.1.filter (·.isRaise) = (if s.attr = "children" then [] else [SetterForm.Ev.mayRaise "format_obj_input"]) ++
+          [.mayRaiseR "self.add" replaceChildrenHandler] ∧
+        (p.1.takeWhile fun e => e != .mayRaiseR "self.add" replaceChildrenHandler).filter (·.isWrite) ∈
+          [[.mutate "self._children", .mutate "self._update_src_and_sens"],
+           [.mutateElem "child._parent [child in removed]", .mutate "self._children", .mutate "self._update_src_and_sens"],
+           [.mutateElem "child._parent [child in removed]", .mutateElem "child._parent [child in removed]", .mutate "self._children",
+            .mutate "self._update_src_and_sens"]] ∧
+        ([SetterForm.Ev.mutateElem "child._parent [child in removed]", .mutate "self._children", .mutate "self._update_src_and_sens"].all
+          (SetterForm.covered [("old_children", "self._children")] replaceChildrenHandler)) = true := by
   decide
 
-/-- what the form means for a run: along a path of that form, when the method is left at a point of rejection, no change of object state
-has happened before it -/
-theorem vta_no_change_before_rejection (evs : List SetterForm.Ev) (h : SetterForm.vta evs = true) (i : Nat) (w : String)
-    (hi : evs[i]? = some (.mayRaise w)) : ∀ j, j < i → ∀ m, evs[j]? ≠ some (.mutate m) := by
-  induction evs generalizing i with
-  | nil => simp at hi
-  | cons e r ih =>
-    cases e with
-    | mayRaise x =>
-      intro j hj m
+/-- the body of the `children` setter with `_replace_children` inlined, as a literal (checked against the regenerated tree below) -/
+def childrenBody (handler : List Setters.Stmt) (excType : String) (saveFirst : Bool) : List Setters.Stmt :=
+  [.inline "self._replace_children" ["list"]
+    ((if saveFirst then [Setters.Stmt.save "old_children" "self._children"] else []) ++
+     [.loop [] [.assignElem "child._parent [child in removed]" []], .assign "self._children" true ["any"]] ++
+     (if saveFirst then [] else [Setters.Stmt.save "old_children" "self._children"]) ++
+     [.expr ["self._update_src_and_sens"], .tryExcept [.expr ["self.add"]] excType handler])]
+
+def childrenHandler : List Setters.Stmt :=
+  [.restore "self._children" "old_children", .loop [] [.assignElem "child._parent [child in removed]" []],
+   .expr ["self._update_src_and_sens"], .raise ""]
+
+theorem children_body_is_regenerated :
+    (Setters.setters.filter fun s => SetterForm.name s == ("BaseCollection", "children")).map (fun s => SetterForm.pathsL s.body) =
+      [SetterForm.pathsL (childrenBody childrenHandler "Exception" true)] := by
+  decide
+
+/-- witnesses that the analysis looks at the handler's statements: the source's handler passes; a handler that forgets ONE of its three
+restores is flagged, whichever it is; so is a handler that restores `_children` from a reference taken after the attribute was rebound, one
+that recomputes the typed views before `_children` is put back, one that does not re-raise, one that only catches ValueError, and one that
+calls something that can itself reject -/
+theorem dropped_restore_is_flagged :
+    let f := fun (h : List Setters.Stmt) (exc : String) (saveFirst : Bool) =>
+      SetterForm.form ⟨"class_Collection.py", "BaseCollection", "children", "children", childrenBody h exc saveFirst⟩
+    f childrenHandler "Exception" true = true ∧
+    f [.loop [] [.assignElem "child._parent [child in removed]" []], .expr ["self._update_src_and_sens"], .raise ""] "Exception" true = false ∧
+    f [.restore "self._children" "old_children", .expr ["self._update_src_and_sens"], .raise ""] "Exception" true = false ∧
+    f [.restore "self._children" "old_children", .loop [] [.assignElem "child._parent [child in removed]" []], .raise ""] "Exception" true = false ∧
+    f childrenHandler "Exception" false = false ∧
+    f [.expr ["self._update_src_and_sens"], .restore "self._children" "old_children",
+       .loop [] [.assignElem "child._parent [child in removed]" []], .raise ""] "Exception" true = false ∧
+    f [.restore "self._children" "old_children", .loop [] [.assignElem "child._parent [child in removed]" []],
+       .expr ["self._update_src_and_sens"]] "Exception" true = false ∧
+    f childrenHandler "ValueError" true = false ∧
+    f [.restore "self._children" "old_children", .loop [] [.assignElem "child._parent [child in removed]" []],
+       .expr ["self._update_src_and_sens"], .expr ["format_obj_input"], .raise ""] "Exception" true = false ∧
+    f [.assign "self._children" true [], .loop [] [.assignElem "child._parent [child in removed]" []],
+       .expr ["self._update_src_and_sens"], .raise ""] "Exception" true = false := by
+  decide
+
+/-- what the two forms mean for a run, along any path the analysis accepts: (1) when the method is left at a point of rejection that no
+handler surrounds, no change of object state has happened before it; (2) when it is left at a point of rejection under a restoring handler,
+every change of object state that happened before it is one the handler undoes (with the references saved at that moment) -/
+theorem rwc_no_unrestored_change_before_rejection (evs : List SetterForm.Ev) (h : SetterForm.rwc evs = true) (i : Nat) :
+    (∀ w, evs[i]? = some (.mayRaise w) → ∀ j, j < i → ∀ e, evs[j]? = some e → e.isWrite = false) ∧
+    (∀ w hd, evs[i]? = some (.mayRaiseR w hd) →
+      ∀ j, j < i → ∀ e, evs[j]? = some e → e.isWrite = true → ∃ saved, SetterForm.covered saved hd e = true) := by
+  have key : ∀ (evs : List SetterForm.Ev) (dirty : List SetterForm.Ev) (saved : List (String × String)) (i : Nat),
+      SetterForm.rwcAux dirty saved evs = true →
+      (∀ w, evs[i]? = some (.mayRaise w) → dirty = [] ∧ ∀ j, j < i → ∀ e, evs[j]? = some e → e.isWrite = false) ∧
+      (∀ w hd, evs[i]? = some (.mayRaiseR w hd) →
+        (∀ e ∈ dirty, ∃ sv, SetterForm.covered sv hd e = true) ∧
+        ∀ j, j < i → ∀ e, evs[j]? = some e → e.isWrite = true → ∃ sv, SetterForm.covered sv hd e = true) := by
+    intro evs
+    induction evs with
+    | nil => intro dirty saved i _; simp
+    | cons e0 r ih =>
+      intro dirty saved i hr
       cases i with
-      | zero => omega
+      | zero =>
+        refine ⟨?_, ?_⟩
+        · intro w hw
+          simp only [List.getElem?_cons_zero, Option.some.injEq] at hw
+          subst hw
+          simp only [SetterForm.rwcAux, Bool.and_eq_true, List.isEmpty_iff] at hr
+          exact ⟨hr.1, fun j hj => absurd hj (Nat.not_lt_zero j)⟩
+        · intro w hd hw
+          simp only [List.getElem?_cons_zero, Option.some.injEq] at hw
+          subst hw
+          simp only [SetterForm.rwcAux, Bool.and_eq_true, List.all_eq_true] at hr
+          exact ⟨fun e he => ⟨saved, hr.1 e he⟩, fun j hj => absurd hj (Nat.not_lt_zero j)⟩
       | succ i' =>
-        cases j with
-        | zero => simp
-        | succ j' =>
-          simp only [List.getElem?_cons_succ] at hi ⊢
-          exact ih (by simpa [SetterForm.vta] using h) i' hi j' (by omega) m
-    | mutate x =>
-      cases i with
-      | zero => simp at hi
-      | succ i' =>
-        simp only [List.getElem?_cons_succ] at hi
-        have hall : ∀ e ∈ r, e.isRaise = false := by
-          simpa [SetterForm.vta] using h
-        have hmem : SetterForm.Ev.mayRaise w ∈ r := List.mem_of_getElem? hi
-        have := hall _ hmem
-        simp [SetterForm.Ev.isRaise] at this
+        -- the state after the head event, and the induction hypothesis for it
+        have step : ∃ dirty' saved', SetterForm.rwcAux dirty' saved' r = true ∧ (∀ e ∈ dirty, e ∈ dirty') ∧
+            (e0.isWrite = true → e0 ∈ dirty') ∧ (e0.isWrite = false → dirty' = dirty) := by
+          cases e0 with
+          | mayRaise w =>
+            simp only [SetterForm.rwcAux, Bool.and_eq_true] at hr
+            exact ⟨dirty, saved, hr.2, fun e he => he, by simp [SetterForm.Ev.isWrite], fun _ => rfl⟩
+          | mayRaiseR w hd =>
+            simp only [SetterForm.rwcAux, Bool.and_eq_true] at hr
+            exact ⟨dirty, saved, hr.2, fun e he => he, by simp [SetterForm.Ev.isWrite], fun _ => rfl⟩
+          | save l src =>
+            simp only [SetterForm.rwcAux] at hr
+            exact ⟨dirty, _, hr, fun e he => he, by simp [SetterForm.Ev.isWrite], fun _ => rfl⟩
+          | mutate t =>
+            simp only [SetterForm.rwcAux] at hr
+            exact ⟨_, saved, hr, fun e he => List.mem_cons_of_mem _ he, fun _ => List.mem_cons_self, by simp [SetterForm.Ev.isWrite]⟩
+          | mutateElem t =>
+            simp only [SetterForm.rwcAux] at hr
+            exact ⟨_, saved, hr, fun e he => List.mem_cons_of_mem _ he, fun _ => List.mem_cons_self, by simp [SetterForm.Ev.isWrite]⟩
+        obtain ⟨dirty', saved', hr', hsub, hin, hsame⟩ := step
+        obtain ⟨ih1, ih2⟩ := ih dirty' saved' i' hr'
+        refine ⟨?_, ?_⟩
+        · intro w hw
+          simp only [List.getElem?_cons_succ] at hw
+          obtain ⟨hd', hbefore⟩ := ih1 w hw
+          have hnw : e0.isWrite = false := by
+            cases hw0 : e0.isWrite with
+            | false => rfl
+            | true => have := hin hw0; rw [hd'] at this; cases this
+          refine ⟨by rw [← hsame hnw]; exact hd', ?_⟩
+          intro j hj e he
+          cases j with
+          | zero => simp only [List.getElem?_cons_zero, Option.some.injEq] at he; subst he; exact hnw
+          | succ j' => simp only [List.getElem?_cons_succ] at he; exact hbefore j' (by omega) e he
+        · intro w hd hw
+          simp only [List.getElem?_cons_succ] at hw
+          obtain ⟨hdirty, hbefore⟩ := ih2 w hd hw
+          refine ⟨fun e he => hdirty e (hsub e he), ?_⟩
+          intro j hj e he hwr
+          cases j with
+          | zero =>
+            simp only [List.getElem?_cons_zero, Option.some.injEq] at he; subst he
+            exact hdirty _ (hin hwr)
+          | succ j' => simp only [List.getElem?_cons_succ] at he; exact hbefore j' (by omega) e he hwr
+  obtain ⟨k1, k2⟩ := key evs [] [] i h
+  exact ⟨fun w hw => (k1 w hw).2, fun w hd hw => (k2 w hd hw).2⟩
 
 /-- every setter whose validation is modelled by `setAttrWith` / `checkVector` / `checkScalar` … (the rows of `Attr.table`) is one of the
 regenerated setters, so `*_reject_keeps_state` speaks about methods that have the form it assumes -/
@@ -91,7 +200,13 @@ theorem modelled_setters_are_regenerated :
 
 example : SetterForm.form ⟨"f", "C", "x", "v", [.assign "self._x" true [], .expr ["check_format_input_scalar"]]⟩ = false := by decide
 example : SetterForm.form ⟨"f", "C", "x", "v", [.assign "self._x" true ["some_new_function"]]⟩ = false := by decide
-example : SetterForm.form ⟨"f", "C", "x", "v", [.assign "v2" false ["check_format_input_scalar"], .assign "self._x" true []]⟩ = true := by decide
+example : SetterForm.form ⟨"f", "C", "x", "v", [.assign "v2" false ["check_format_input_scalar"], .restore "self._x" "v2"]⟩ = true := by decide
+-- an in-place change of the list (instead of rebinding the attribute) is a call the analysis does not know: flagged
+example : SetterForm.form ⟨"f", "C", "x", "v", [.save "old" "self._children", .expr ["self._children.clear"],
+    .tryExcept [.expr ["self.add"]] "Exception" [.restore "self._children" "old", .raise ""]]⟩ = false := by decide
+-- a write made by the setter BEFORE it calls the helper is not known to the helper's handler: flagged
+example : SetterForm.form ⟨"f", "C", "x", "v", [.assign "self._extra" true [],
+    .inline "self._replace_children" [] (childrenBody childrenHandler "Exception" true)]⟩ = false := by decide
 
 /-! ## constructor path = setter path (regenerated table of every `__init__`, Gen/Setters.lean) -/
 
